@@ -36,10 +36,10 @@ Qed.
 (* ---------------------------------------------------------------- dropped with the call (read / diff) *)
 (* a call that is not recorded (time filter, depth limit) contributes nothing to the stream: its read
    and diff events vanish with it *)
-Theorem read_events_dropped_with_call thr gd ms sh rd pm fv fd k d :
-  recs thr gd d (strip k) = [] -> xrecs (xplain thr gd ms sh rd pm fv fd) thr gd d k = [].
+Theorem read_events_dropped_with_call thr gd ms sh rd pm k d :
+  recs thr gd d (strip k) = [] -> xrecs (xplain thr gd ms sh rd pm) thr gd d k = [].
 Proof.
-  intro H. pose proof (is_nil_xrecs_list thr gd ms sh rd pm fv fd [k] d) as Q.
+  intro H. pose proof (is_nil_xrecs_list thr gd ms sh rd pm [k] d) as Q.
   cbn [flat_map map] in Q. rewrite !app_nil_r, H in Q. cbn [is_nil] in Q.
   destruct (xrecs _ thr gd d k); [reflexivity|discriminate].
 Qed.
@@ -115,44 +115,32 @@ Definition o_pf_only (mn : N) : oval :=
   {| o_statm := [0; 0; 0]; o_pf := [0; mn]; o_cycle := [0; 0]; o_cache := [0; 0]; o_branch := [0; 0];
      o_cpu := 0%Z; o_var := 0 |}.
 
-(* (1) watch events of a call that the time filter drops are NOT dropped with it: f1 (10 ns, threshold
-   50 ns) does not appear, the two cpu changes observed at its entry and exit do *)
+(* (1) watch events of a call that the time filter drops are dropped with it: f1 (10 ns, threshold 50 ns)
+   and the two cpu changes observed at its entry and exit are absent; the thread's first event stays *)
 Definition drop_cfg : xcfg :=
-  {| xb := plain 50 1024 1024 PG; read_of := fun _ => 0; wp_cpu := true; wp_var := false; pmu_ok := false;
-     fix_var := false; fix_drop := false |}.
+  {| xb := plain 50 1024 1024 PG; read_of := fun _ => 0; wp_cpu := true; wp_var := false; pmu_ok := false |}.
 Definition drop_run : list xev :=
   [XEnter 0 100 (o_cpu_only 3); XEnter 256 110 (o_cpu_only 4); XLeave 120 (o_cpu_only 5);
    XEnter 512 130 (o_cpu_only 5); XLeave 190 (o_cpu_only 5); XLeave 200 (o_cpu_only 5)].
 Definition wcpu (t : N) (c : N) : item := IE {| e_time := t; e_id := C17_EVENT_ID_WATCH_CPU; e_data := [c] |}.
-Lemma watch_dropped_with_call_refuted :
+Example watch_dropped_with_call_example :
   xout (snd (xexec drop_cfg drop_run xstart)) =
-  [IR {| r_time := 100; r_type := ENTRY; r_depth := 0; r_addr := 0 |}; wcpu 101 3; wcpu 109 4; wcpu 119 5;
-   IR {| r_time := 130; r_type := ENTRY; r_depth := 1; r_addr := 512 |};
-   IR {| r_time := 190; r_type := EXIT; r_depth := 1; r_addr := 512 |};
-   IR {| r_time := 200; r_type := EXIT; r_depth := 0; r_addr := 0 |}].
-Proof. vm_compute. reflexivity. Qed.
-
-(* the invalidation keeps every pending event whose frame index is below mtdp->idx - which, at the
-   exit hook, still includes the exiting frame itself (idx is decremented after the hook) *)
-Lemma invalidate_keeps_own e n :
-  invalidate (n + 1) [{| a_ev := e; a_idx := n |}] = [{| a_ev := e; a_idx := n |}].
-Proof.
-  assert (E : (n <? n + 1) = true) by (apply N.ltb_lt; lia).
-  unfold invalidate. cbn [last_keep a_idx]. rewrite E. reflexivity.
-Qed.
-
-(* With proposed-fixes/C17-3.diff (compare with the exiting frame's own index) the same history records
-   neither f1 nor its events; the thread's first event (frame 0) stays *)
-Definition drop_cfg_fixed : xcfg :=
-  {| xb := plain 50 1024 1024 PG; read_of := fun _ => 0; wp_cpu := true; wp_var := false; pmu_ok := false;
-     fix_var := false; fix_drop := true |}.
-Lemma watch_dropped_with_call_fixed :
-  xout (snd (xexec drop_cfg_fixed drop_run xstart)) =
   [IR {| r_time := 100; r_type := ENTRY; r_depth := 0; r_addr := 0 |}; wcpu 101 3;
    IR {| r_time := 130; r_type := ENTRY; r_depth := 1; r_addr := 512 |};
    IR {| r_time := 190; r_type := EXIT; r_depth := 1; r_addr := 512 |};
    IR {| r_time := 200; r_type := EXIT; r_depth := 0; r_addr := 0 |}].
 Proof. vm_compute. reflexivity. Qed.
+
+(* LEGACY (before 35535f9): the invalidation was called with mtdp->idx, one above the exiting frame's own
+   index n: the frame's own events always passed the test and were written with the next record *)
+Lemma invalidate_legacy_keeps_own e n :
+  invalidate (n + 1) [{| a_ev := e; a_idx := n |}] = [{| a_ev := e; a_idx := n |}] /\
+  invalidate n [{| a_ev := e; a_idx := n |}] = [].
+Proof.
+  assert (E : (n <? n + 1) = true) by (apply N.ltb_lt; lia).
+  assert (E' : (n <? n) = false) by (apply N.ltb_ge; lia).
+  unfold invalidate. cbn [last_keep a_idx]. rewrite E, E'. split; reflexivity.
+Qed.
 
 (* in general: on a queue ordered by frame index (events are queued in hook order, deeper frames later)
    the invalidation keeps exactly the events of the frames below the given index *)
@@ -208,7 +196,7 @@ Definition zero_cfg : xcfg :=
                          t_trace_off := false; t_trace := true; t_caller := false |})]
                  false false 1024 0 1024 [] PG;
      read_of := fun a => if a =? 0 then TRIGGER_READ_PAGE_FAULT else 0;
-     wp_cpu := false; wp_var := false; pmu_ok := false; fix_var := false; fix_drop := false |}.
+     wp_cpu := false; wp_var := false; pmu_ok := false |}.
 Lemma zero_duration_read_twice_refuted :
   map (fun i => match i with IR r => (0, r_time r) | IE e => (e_id e, e_time e) end)
       (xout (snd (xexec zero_cfg [XEnter 0 100 (o_pf_only 5); XLeave 100 (o_pf_only 9)] xstart))) =
@@ -218,7 +206,7 @@ Proof. vm_compute. reflexivity. Qed.
 
 (* non-vacuity of the read/diff theorem: a concrete run with a negative difference (wraps mod 2^64) *)
 Definition ex_cfg : xcfg :=
-  xplain 0 1024 1024 PG (fun a => if a =? 0 then TRIGGER_READ_PAGE_FAULT else 0) false false false.
+  xplain 0 1024 1024 PG (fun a => if a =? 0 then TRIGGER_READ_PAGE_FAULT else 0) false.
 Example read_diff_example :
   xout (snd (xexec ex_cfg [XEnter 0 100 (o_pf_only 9); XLeave 200 (o_pf_only 5)] xstart)) =
   [IR {| r_time := 100; r_type := ENTRY; r_depth := 0; r_addr := 0 |};
@@ -231,8 +219,7 @@ Proof. vm_compute. reflexivity. Qed.
    next one the queue is no longer ordered (first event stamped t+1, next one (t+1)-1 = t), the head blocks
    the flush, and the second event is written inside the callee although it is stamped before its ENTRY *)
 Definition gap_cfg : xcfg :=
-  {| xb := plain 0 1024 1024 PG; read_of := fun _ => 0; wp_cpu := true; wp_var := false; pmu_ok := false;
-     fix_var := false; fix_drop := false |}.
+  {| xb := plain 0 1024 1024 PG; read_of := fun _ => 0; wp_cpu := true; wp_var := false; pmu_ok := false |}.
 Definition gap_run (g : N) : list xev :=
   [XEnter 0 100 (o_cpu_only 1); XEnter 256 (100 + g) (o_cpu_only 2); XLeave (100 + 2 * g) (o_cpu_only 3);
    XLeave 200 (o_cpu_only 4)].
@@ -251,38 +238,37 @@ Example watch_times_gap2 :
 Proof. vm_compute. split; reflexivity. Qed.
 
 (* ---------------------------------------------------------------- the overlap guard of save_trigger_read *)
-(* if the word the guard reads were the size of the argument area (header included), storing would
-   imply disjointness ... *)
-Theorem guard_sound_if_word_right b dsz : w_at_ptr b = 4 + asz b ->
-  guard_stores b dsz = true -> disjoint_after b dsz = true.
+(* the guard stores an event exactly when it fits above the argument bytes (size word included); a stored
+   event and the argument bytes never overlap *)
+Theorem guard_exact b dsz : guard_stores b dsz = room_for b dsz.
 Proof.
-  unfold guard_stores, disjoint_after. intros Hw H. destruct (has_args b); [|reflexivity]. cbn [negb orb].
-  apply andb_true_iff in H. destruct H as [_ H]. rewrite Hw in H. exact H.
-Qed.
-
-(* ... but the word is read through the EVENT pointer: (a) entry hook, no event stored yet: it is the
-   first word of the NEXT frame's buffer (stale or never written, here 0): a 1000-byte argument area
-   and a page-fault event overlap although the guard lets the event through *)
-Lemma event_area_disjoint_refuted :
-  let b := {| has_args := true; asz := 1000; event_idx := C17_ARGBUF_SIZE; w_at_ptr := 0 |} in
-  guard_stores b SIZEOF_PAGE_FAULT = true /\ disjoint_after b SIZEOF_PAGE_FAULT = false.
-Proof. vm_compute. split; reflexivity. Qed.
-
-(* (b) exit hook, the read event is stored at the event pointer: the word is the low half of its time
-   stamp (here 5000): the diff event is rejected although 8 bytes of arguments leave plenty of room *)
-Lemma diff_event_lost_with_args_refuted :
-  let b := {| has_args := true; asz := 8; event_idx := C17_ARGBUF_SIZE - (EVTBUF_HDR + SIZEOF_PAGE_FAULT);
-              w_at_ptr := 5000 |} in
-  room_for b SIZEOF_PAGE_FAULT = true /\ guard_stores b SIZEOF_PAGE_FAULT = false.
-Proof. vm_compute. split; reflexivity. Qed.
-
-(* without argument / return-value capture in the frame the guard never rejects an event that fits *)
-Theorem guard_exact_without_args b dsz : has_args b = false ->
-  guard_stores b dsz = room_for b dsz.
-Proof.
-  intro H. unfold guard_stores, room_for. rewrite H. cbn [negb orb].
+  unfold guard_stores, room_for. destruct (has_args b); cbn [negb orb]; [reflexivity|].
   assert (E : (0 <=? event_idx b - (EVTBUF_HDR + dsz)) = true) by (apply N.leb_le; lia). rewrite E. reflexivity.
 Qed.
+
+Theorem event_area_disjoint b dsz : guard_stores b dsz = true -> disjoint_after b dsz = true.
+Proof.
+  unfold guard_stores, disjoint_after. intro H. destruct (has_args b); [|reflexivity]. cbn [negb orb].
+  apply andb_true_iff in H. destruct H as [_ H]. exact H.
+Qed.
+
+(* LEGACY (before 7cf042b): the size word was read through the EVENT pointer.  (a) entry hook, no event
+   stored yet: the first word of the NEXT frame's buffer (stale or never written, here 0): a 1000-byte
+   argument area and a page-fault event overlap although the guard lets the event through *)
+Lemma event_area_disjoint_legacy_refuted :
+  let b := {| has_args := true; asz := 1000; event_idx := C17_ARGBUF_SIZE; w_at_ptr := 0 |} in
+  guard_stores_legacy b SIZEOF_PAGE_FAULT = true /\ disjoint_after b SIZEOF_PAGE_FAULT = false /\
+  guard_stores b SIZEOF_PAGE_FAULT = false.
+Proof. vm_compute. repeat split; reflexivity. Qed.
+
+(* (b) exit hook, the read event is stored at the event pointer: the word is the low half of its time
+   stamp (here 5000): the diff event was rejected although 8 bytes of arguments leave plenty of room *)
+Lemma diff_event_lost_with_args_legacy_refuted :
+  let b := {| has_args := true; asz := 8; event_idx := C17_ARGBUF_SIZE - (EVTBUF_HDR + SIZEOF_PAGE_FAULT);
+              w_at_ptr := 5000 |} in
+  room_for b SIZEOF_PAGE_FAULT = true /\ guard_stores_legacy b SIZEOF_PAGE_FAULT = false /\
+  guard_stores b SIZEOF_PAGE_FAULT = true.
+Proof. vm_compute. repeat split; reflexivity. Qed.
 
 (* all events of one frame (5 kinds, read + diff) fit: the event area never reaches the buffer start *)
 Lemma all_events_fit :
